@@ -31,7 +31,7 @@ from gverif.props import c03_ast as A
 
 PRELUDE = "from typing import Literal\nimport typing as t\n"
 CMPOPS = list(A.CMPOPS)
-QUICK_STRIDE = 101       # quick: 1/101 of the two-edge chains
+QUICK_STRIDE = 151       # quick: 1/151 of the two-edge chains
 THOROUGH_STRIDE, THOROUGH_PARTS = 35, 7   # thorough: 7 residues mod 35 = 1/5 of them
 REPLAY_PROCS = 6
 APPLIED = "abcdefghpqrstuv"     # repairs committed in /repo: the spec's plain Impl (ExprBuild.tla `Applied`); revertible in the model only
@@ -258,11 +258,6 @@ def check_contexts(run: Run, w: World, cases: list, stats: dict):
 def tlc_jobs(tier: str) -> dict:
     FIXED_TLA = ", ".join(f'"{f}"' for f in sorted(FIXED))
     jobs = {
-        "defect": dict(cfg="ExprBuild_defect.cfg", constants=dict(DEPTH=2, FAMILY="chain", STRIDE=1, OFFSET=0, DOMAIN="defect", EMIT="FALSE", FIXED=FIXED_TLA, REVERTED=""), workers=1, dump_trace=True),
-        **{f"regress-{x}": dict(cfg="ExprBuild_regress.cfg", workers=1, dump_trace=True,
-                                constants=dict(DEPTH=2, FAMILY="chain", STRIDE=1, OFFSET=0, DOMAIN="defect", EMIT="FALSE", FIXED=FIXED_TLA, REVERTED=f'"{x}"'))
-           for x in APPLIED},
-        "lambda": dict(constants=dict(DEPTH=2, FAMILY="lambda", STRIDE=1, OFFSET=0, DOMAIN="all", EMIT="TRUE", FIXED=FIXED_TLA, REVERTED=""), workers=1),
         "depth2": dict(constants=dict(DEPTH=2, FAMILY="chain", STRIDE=1, OFFSET=0, DOMAIN="all", EMIT="TRUE", FIXED=FIXED_TLA, REVERTED=""), workers=5),
     }
     if tier == "quick":
@@ -270,6 +265,11 @@ def tlc_jobs(tier: str) -> dict:
     else:
         for i in range(THOROUGH_PARTS):   # THOROUGH_PARTS residues of THOROUGH_STRIDE: a seeded THOROUGH_PARTS/THOROUGH_STRIDE of all two-edge chains
             jobs[f"depth3-{i}"] = dict(constants=dict(DEPTH=3, FAMILY="chain", STRIDE=THOROUGH_STRIDE, OFFSET=(SEED + i * 5) % THOROUGH_STRIDE, DOMAIN="all", EMIT="TRUE", FIXED=FIXED_TLA, REVERTED=""), workers=6, heap="3g")
+    jobs["lambda"] = dict(constants=dict(DEPTH=2, FAMILY="lambda", STRIDE=1, OFFSET=0, DOMAIN="all", EMIT="TRUE", FIXED=FIXED_TLA, REVERTED=""), workers=1)
+    jobs["defect"] = dict(cfg="ExprBuild_defect.cfg", constants=dict(DEPTH=2, FAMILY="chain", STRIDE=1, OFFSET=0, DOMAIN="defect", EMIT="FALSE", FIXED=FIXED_TLA, REVERTED=""), workers=1, dump_trace=True)
+    for x in APPLIED:      # model-only regression domain, one job per committed repair (depth-first: the first old defect ends the job)
+        jobs[f"regress-{x}"] = dict(cfg="ExprBuild_regress.cfg", workers=1, dump_trace=True, dfs_queue=True,
+                                    constants=dict(DEPTH=2, FAMILY="chain", STRIDE=1, OFFSET=0, DOMAIN="defect", EMIT="FALSE", FIXED=FIXED_TLA, REVERTED=f'"{x}"'))
     return jobs
 
 
